@@ -324,11 +324,14 @@ def unescape_quoted_string(string):
     if not match:
         raise ValueError("Invalid quoted string", string)
     string = match.group(1)
-    # remove backslash before all characters which should not be
-    # handeled as escape codes by string.decode('string-escape').
-    # This is needed so e.g. '\x00' is not unescaped as '\0'
-    string = re.sub(r'((?:^|[^\\])(?:\\\\)*)\\([^ntr0-7\\])', r'\1\2', string)
-    return bytes(string, 'ascii').decode('unicode-escape')
+
+    # one pass, left to right, so that adjacent escapes don't interfere
+    def unescape(m):
+        octal, char = m.groups()
+        if octal is not None:
+            return chr(int(octal, 8))
+        return {'n': '\n', 't': '\t', 'r': '\r'}.get(char, char)
+    return re.sub(r'\\(?:([0-7]{1,3})|(.))', unescape, string)
 
 
 def default_control_port():
